@@ -78,8 +78,18 @@ func (x *Exec) callAssertions(st *State, in ssa.Instruction, c *ssa.CallCommon, 
 	}
 	cls := x.fc.AtCall[name]
 	if len(cls) == 0 {
+		// a function of another package may be named with its package: os.Rename, sort.Sort
+		if f := c.StaticCallee(); f != nil && f.Pkg != nil && f.Signature.Recv() == nil {
+			if q := f.Pkg.Pkg.Name() + "." + f.Name(); len(x.fc.AtCall[q]) > 0 {
+				name = q
+				cls = x.fc.AtCall[q]
+			}
+		}
+	}
+	if len(cls) == 0 {
 		return
 	}
+	x.atcallSeen[name] = true
 	names := cloneNames(x.params)
 	for i, a := range args {
 		names[fmt.Sprintf("arg%d", i)] = a
